@@ -107,7 +107,7 @@ func init() {
 		"strings.ToTitle": strings.ToTitle, "strings.LastIndexByte": strings.LastIndexByte, "strings.LastIndexAny": strings.LastIndexAny,
 		"strings.SplitAfter": strings.SplitAfter, "strings.SplitAfterN": strings.SplitAfterN, "strings.TrimFunc": nil,
 		"strings.ContainsAny": strings.ContainsAny, "strings.ToValidUTF8": strings.ToValidUTF8, "strings.CutPrefix": strings.CutPrefix,
-		"strings.CutSuffix": strings.CutSuffix, "strings.EqualFold": strings.EqualFold, "strings.NewReplacer": strings.NewReplacer,
+		"strings.CutSuffix": strings.CutSuffix, "strings.EqualFold": strings.EqualFold,
 		"strconv.ParseBool": strconv.ParseBool, "strconv.FormatUint": strconv.FormatUint, "strconv.Unquote": strconv.Unquote,
 		"strconv.QuoteToASCII": strconv.QuoteToASCII, "strconv.AppendInt": nil, "strconv.FormatFloat": strconv.FormatFloat,
 		"bytes.Contains": bytes.Contains, "bytes.HasPrefix": bytes.HasPrefix, "bytes.HasSuffix": bytes.HasSuffix, "bytes.TrimSpace": bytes.TrimSpace,
@@ -293,5 +293,49 @@ func init() {
 			return []value{}
 		}
 		return absBytes{mkConcat(ts...)}
+	})
+}
+
+// strings.Replacer: the pairs are remembered at construction; Replace runs the real replacer on a concrete
+// string and, for a symbolic one, is modelled for replacers that only DELETE single characters (the way
+// separators are dropped from a code somebody typed): a chain of str.replace_all.
+type replacerModel struct {
+	pairs []string
+	real  *strings.Replacer
+}
+
+func init() {
+	reg("strings.NewReplacer", func(fr *frame, a []value) value {
+		vs, _ := a[0].([]value)
+		var pairs []string
+		for _, v := range vs {
+			s, ok := v.(string)
+			if !ok {
+				panic(unmodelled{"strings.NewReplacer with symbolic arguments"})
+			}
+			pairs = append(pairs, s)
+		}
+		var cell value = native{&replacerModel{pairs: pairs, real: strings.NewReplacer(pairs...)}}
+		return &cell
+	})
+	reg("(*strings.Replacer).Replace", func(fr *frame, a []value) value {
+		r, ok := nativeOf(a[0]).(*replacerModel)
+		if !ok {
+			panic(unmodelled{"strings.Replacer not made by strings.NewReplacer"})
+		}
+		switch s := a[1].(type) {
+		case string:
+			return r.real.Replace(s)
+		case *Term:
+			t := s
+			for k := 0; k+1 < len(r.pairs); k += 2 {
+				if len(r.pairs[k]) != 1 || r.pairs[k+1] != "" {
+					panic(unmodelled{"strings.Replacer.Replace of a symbolic string (only single-character deletions are modelled)"})
+				}
+				t = mkApp("str.replace_all", SStr, t, mkStr(r.pairs[k]), mkStr(""))
+			}
+			return strVal(t)
+		}
+		panic(unmodelled{"strings.Replacer.Replace argument"})
 	})
 }
